@@ -181,9 +181,13 @@ pub enum Stack {
     CompactReplace,
     /// `Replace::new(NoFinishHook::new(hook))`: the wrapper must forward `replace` itself
     ReplaceNoFinish,
+    /// `Replace::new(&mut hook)`: the `&mut D` forwarding impl must forward `replace` itself
+    ReplaceMutRef,
+    /// `Compact::new(Replace::new(&mut hook), ..)`
+    CompactReplaceMutRef,
 }
 impl Stack {
-    pub const ALL: [Stack; 7] = [
+    pub const ALL: [Stack; 9] = [
         Stack::None,
         Stack::MutRef,
         Stack::NoFinish,
@@ -191,15 +195,17 @@ impl Stack {
         Stack::Compact,
         Stack::CompactReplace,
         Stack::ReplaceNoFinish,
+        Stack::ReplaceMutRef,
+        Stack::CompactReplaceMutRef,
     ];
     /// name in the request line; `&mut D` forwarding is the identity in the model
     pub fn name(&self) -> &'static str {
         match self {
             Stack::None | Stack::MutRef => "none",
             Stack::NoFinish => "nofinish",
-            Stack::Replace => "replace",
+            Stack::Replace | Stack::ReplaceMutRef => "replace",
             Stack::Compact => "compact",
-            Stack::CompactReplace => "compactreplace",
+            Stack::CompactReplace | Stack::CompactReplaceMutRef => "compactreplace",
             Stack::ReplaceNoFinish => "replacenofinish",
         }
     }
@@ -364,6 +370,20 @@ where
             let mut d = Replace::new(NoFinishHook::new(h));
             let r = run_alg(c.alg, &mut d, old, or, new, nr, dl);
             (r, get(&d.into_inner().into_inner()))
+        }
+        Stack::ReplaceMutRef => {
+            let r = {
+                let mut d = Replace::new(&mut h);
+                run_alg(c.alg, &mut d, old, or, new, nr, dl)
+            };
+            (r, get(&h))
+        }
+        Stack::CompactReplaceMutRef => {
+            let r = {
+                let mut d = Compact::new(Replace::new(&mut h), old, new);
+                run_alg(c.alg, &mut d, old, or, new, nr, dl)
+            };
+            (r, get(&h))
         }
     }
 }
